@@ -326,6 +326,14 @@ def judge_forced(c, r, model):
                         (d.get("p_served_after_signal"), d.get("p_torn_down_after_close"), d.get("p2_accepts_after_signal")),
                         {"defect": "select_failure"}, ""))
         obs += _generic(d, out, err, rc) + [o for o in _misuse(d)]
+    elif what == "closeinhandshake":
+        info["seen"] = d.get("hang") == "1"
+        if d.get("hang") == "1" or rc == 124:
+            obs.append(("hang_in_handshake", "forced schedule (rfbShutdownServer closes a client while its thread is between reading a handshake message and storing the next "
+                        "handshake state): the store overwrites RFB_SHUTDOWN, the client's thread goes on serving, rfbShutdownServer never returns from pthread_join",
+                        {"defect": "hang", "phase": d.get("phase", "?"), "after": "close_in_handshake"}, ""))
+        else:
+            obs += _generic(d, out, err, rc) + _misuse(d)
     elif what == "cursor":
         b = int(d.get("burned_pixels", 0) or 0)
         info["seen"] = b > 0
